@@ -170,6 +170,7 @@ func c13Source(c *Ctx) {
 }
 
 func runC13(c *Ctx) {
+	defer definedTypeProbe(c, "C13") // defined scalar types: real-code oracle only (defined_zoo.go)
 	c.R.Rule = "(i) random sources over {ASCII, tab, LF, CRLF, 2/3/4-byte runes, invalid UTF-8}: Snippet(L) for every L in -1..lines+2, Bind at in-source and out-of-source (line, col), posOf at every offset, real code vs Lean model; (ii) well-typed multi-line non-ASCII expressions with exactly one injected fault (kind x depth x position): Parse/Compile/Eval must return *file.Error at the fault's rune position with the snippet = that source line; (iii) programs with exactly one failing run-time operation among guarded ones; (iv) the instrumented reference evaluator Spec.runLoc (the location of the node that raises a failure) vs the position of the real *file.Error, on generated and enumerated programs and on the single-failure programs of (iii); non-trivial = multi-line or multi-byte source; distinct by source text"
 	if c.Replay == "" {
 		c13Source(c)
